@@ -14,6 +14,7 @@
 -/
 import MitmVerif.Model.C20
 import MitmVerif.Model.C20_B64
+import MitmVerif.Model.C20_Ht
 namespace MitmVerif.Props.C20
 open MitmVerif MitmVerif.C20
 
@@ -1402,6 +1403,138 @@ example : B64.a2b [81, 81, 61, 120, 61] = some [65, 12] ∧ B64.a2b [81] = none 
   decide +kernel
 example : B64.mkauth [117] [112, 97, 58, 115, 115] = B64.strText "basic dTpwYTpzcw==\n" := by decide +kernel
 
+
+/-! ## Round 4: the htpasswd file parser (`HtpasswdFile.__init__`) -/
+
+section Htpasswd
+open MitmVerif.C20.Ht
+
+/-- hash formats the parser lets through -/
+def KnownHash (h : Text) : Prop :=
+  startsWith shaPrefix h = true ∨ bcryptPrefixes.any (fun p => startsWith p h) = true
+
+private theorem parseLine_entry (raw u h : Text) (hl : parseLine raw = .entry u h) :
+    strip raw = u ++ 58 :: h ∧ u ≠ [] ∧ (∀ c ∈ u, c ≠ 58) ∧ KnownHash h := by
+  unfold parseLine at hl
+  simp only at hl
+  split at hl
+  · cases hl
+  · cases hsc : splitColon1 (strip raw) with
+    | none => simp [hsc] at hl
+    | some up =>
+      obtain ⟨u', h'⟩ := up
+      simp only [hsc] at hl
+      split at hl
+      · cases hl
+      · rename_i hne
+        split at hl
+        · rename_i hk
+          simp only [LineRes.entry.injEq] at hl
+          obtain ⟨rfl, rfl⟩ := hl
+          obtain ⟨heq, hnc⟩ := (splitColon1_spec _ _ _).1 hsc
+          refine ⟨heq, ?_, hnc, ?_⟩
+          · intro h0; subst h0; simp at hne
+          · simpa [KnownHash, Bool.or_eq_true] using hk
+        · cases hl
+
+/-- **every entry the parser produces is well-formed**: it comes from a stripped line `user:hash` whose user is
+    non-empty and free of ':' (split at the FIRST colon) and whose hash has one of the supported prefixes — for every
+    file content. -/
+theorem htparse_entries_wellformed :
+    ∀ (ls : List Text) (es : List (Text × Text)), parseLines ls = some es →
+      ∀ x ∈ es, x.1 ≠ [] ∧ (∀ c ∈ x.1, c ≠ 58) ∧ KnownHash x.2 ∧ ∃ raw ∈ ls, strip raw = x.1 ++ 58 :: x.2 := by
+  intro ls
+  induction ls with
+  | nil => intro es h x hx; simp [parseLines] at h; subst h; simp at hx
+  | cons l ls ih =>
+    intro es h x hx
+    simp only [parseLines] at h
+    cases hl : parseLine l with
+    | bad => simp [hl] at h
+    | skip =>
+      simp only [hl] at h
+      obtain ⟨a, b, c, raw, hr, hs⟩ := ih es h x hx
+      exact ⟨a, b, c, raw, by simp [hr], hs⟩
+    | entry u hh =>
+      simp only [hl, Option.map_eq_some_iff] at h
+      obtain ⟨es', hes', rfl⟩ := h
+      simp only [List.mem_cons] at hx
+      rcases hx with rfl | hx
+      · obtain ⟨h1, h2, h3, h4⟩ := parseLine_entry l u hh hl
+        exact ⟨h2, h3, h4, l, by simp, h1⟩
+      · obtain ⟨a, b, c, raw, hr, hs⟩ := ih es' hes' x hx
+        exact ⟨a, b, c, raw, by simp [hr], hs⟩
+
+/-- a malformed line anywhere makes the whole file unusable (ValueError → OptionsError at configuration time): the
+    validator is never built from a partially read file -/
+theorem htparse_bad_line_rejects (pre post : List Text) (l : Text) (hl : parseLine l = .bad)
+    (hpre : ∀ x ∈ pre, parseLine x ≠ .bad) : parseLines (pre ++ l :: post) = none := by
+  induction pre with
+  | nil => simp [parseLines, hl]
+  | cons a as ih =>
+    have ha := hpre a (by simp)
+    have ih' := ih (fun x hx => hpre x (by simp [hx]))
+    simp only [List.cons_append, parseLines]
+    cases hpa : parseLine a with
+    | bad => exact absurd hpa ha
+    | skip => simpa using ih'
+    | entry u h => simp [ih']
+
+-- "user:{SHA}x", a comment, an indented bcrypt line with CRLF, a later line for the same user wins; a plain-text hash is refused
+example : (Ht.parse (B64.strText "user:{SHA}x\n# c\n  v:$2b$y  \r\nuser:{SHA}z\n")).map Ht.users =
+    some [(B64.strText "user", B64.strText "{SHA}z"), (B64.strText "v", B64.strText "$2b$y")] := by decide +kernel
+example : Ht.parse (B64.strText "user:plain\n") = none ∧ Ht.parse (B64.strText ":{SHA}x") = none ∧
+    Ht.parse (B64.strText "nocolon") = none := by decide +kernel
+
+end Htpasswd
+
+/-! ### `ProxyAuth.configure` -/
+
+/-- **which `proxyauth` values select the single-user validator**: exactly one ':' in the whole value — user and
+    password are the two sides, neither contains a ':' (a password with ':' cannot be configured this way; such pairs
+    are served by the htpasswd validator, for which `standard_credentials_accepted_on_every_path_closed` applies). -/
+theorem configure_single_spec (a u p : Text) (h : configureSpec (some a) = .single u p) :
+    a = u ++ 58 :: p ∧ (∀ c ∈ u, c ≠ 58) ∧ (∀ c ∈ p, c ≠ 58) := by
+  unfold configureSpec at h
+  simp only at h
+  split at h
+  · cases h
+  · split at h
+    · cases h
+    · split at h
+      · cases h
+      · split at h
+        · cases h
+        · split at h
+          · cases hs : splitColonAll a with
+            | none => simp [hs] at h
+            | some up =>
+              obtain ⟨u', p'⟩ := up
+              simp only [hs, Conf.single.injEq] at h
+              obtain ⟨rfl, rfl⟩ := h
+              unfold splitColonAll at hs
+              cases hc : splitColon1 a with
+              | none => simp [hc] at hs
+              | some up2 =>
+                obtain ⟨u2, p2⟩ := up2
+                simp only [hc] at hs
+                split at hs
+                · cases hs
+                · rename_i hnc
+                  simp only [Option.some.injEq, Prod.mk.injEq] at hs
+                  obtain ⟨rfl, rfl⟩ := hs
+                  obtain ⟨heq, hu⟩ := (splitColon1_spec _ _ _).1 hc
+                  refine ⟨heq, hu, ?_⟩
+                  intro c hcm hc58
+                  subst hc58
+                  exact hnc (by simpa using hcm)
+          · cases h
+
+example : configureSpec (some (B64.strText "user:pa:ss")) = .invalid ∧
+    configureSpec (some (B64.strText "user:pass")) = .single (B64.strText "user") (B64.strText "pass") ∧
+    configureSpec (some (B64.strText "any")) = .any ∧ configureSpec (some []) = .off ∧
+    configureSpec (some (B64.strText "@/etc/ht")) = .htpasswd (B64.strText "/etc/ht") ∧
+    configureSpec (some (B64.strText "nocolon")) = .invalid := by decide +kernel
 
 /-! ### the order of the default addon chain -/
 
